@@ -58,6 +58,30 @@ pub(crate) fn gen_lit_str(s: &str) -> String {
     format!("{:?}", s)
 }
 
+/// A string literal inside a `{{ ... }}` expression, using only escapes the expression parser reads
+/// (`\\xHH` / `\\uHHHH`; it does not know the `\\u{...}` form that `{:?}` produces).
+pub(crate) fn gen_expr_lit_str(s: &str) -> String {
+    let mut out = String::with_capacity(s.len() + 2);
+    out.push('"');
+    for c in s.chars() {
+        match c {
+            '"' => out.push_str("\\\""),
+            '\\' => out.push_str("\\\\"),
+            '\n' => out.push_str("\\n"),
+            '\r' => out.push_str("\\r"),
+            '\t' => out.push_str("\\t"),
+            '\0' => out.push_str("\\0"),
+            '\'' => out.push(c),
+            c if (c as u32) <= 0xFFFF && c.escape_debug().len() > 1 => {
+                out.push_str(&format!("\\u{:04x}", c as u32));
+            }
+            c => out.push(c),
+        }
+    }
+    out.push('"');
+    out
+}
+
 pub(crate) fn dash_to_camel(s: &str) -> CompactString {
     let mut camel_name = CompactString::new("");
     let mut next_upper = false;
